@@ -125,6 +125,18 @@ func (c *FnCtx) define(name, sort, body string) string {
 // axiom: a fact valid in every model (instantiated function axioms etc.).
 // It is included in a query only when all of its symbols are already in the
 // query's cone (relevance filter), which is sound (fewer assumptions).
+// eaddrFun: address of element i of array a when the elements are structs; injective.
+func (c *FnCtx) eaddrFun() string {
+	if _, ok := c.byName["eaddr"]; ok {
+		return q("eaddr")
+	}
+	ea := c.declareFun("eaddr", []string{"Int", "Int"}, "Int")
+	ia := c.declareFun("eaddr.arr", []string{"Int"}, "Int")
+	ii := c.declareFun("eaddr.idx", []string{"Int"}, "Int")
+	c.axiom(fmt.Sprintf("(forall ((a Int) (i Int)) (! (and (= (%s (%s a i)) a) (= (%s (%s a i)) i)) :pattern ((%s a i))))", ia, ea, ii, ea, ea))
+	return ea
+}
+
 func (c *FnCtx) axiom(a string) {
 	c.axioms = append(c.axioms, a)
 	c.axDeps = append(c.axDeps, scanDeps(a))
@@ -391,7 +403,7 @@ func num(n int64) string {
 
 var optionalAxioms = []struct{ sym, text string }{
 	{"(isprint ", isprintDef()},
-	{"(fnid ", "(declare-fun fnid (Int) Int)\n"},
+	{"(fnid ", "(declare-fun fnid (Int) Int)\n(assert (= (fnid 0) 0))\n"},
 	{"(atoi_", "(declare-fun atoi_ok (Str) Bool)\n(declare-fun atoi_val (Str) Int)\n"},
 	{"(ix ", `(declare-fun ix (Int Int) Int)
 (assert (forall ((a Int) (b Int)) (! (= (ix a b) (+ a b)) :pattern ((ix a b)))))
